@@ -242,9 +242,14 @@ func (r *Remote) addReachableTags(localRefs []*plumbing.Reference, remoteRefs st
 		return err
 	}
 
-	// remove any that are already on the remote
+	// remove any that are already on the remote, whatever they point at
+	// there: following tags only adds missing ones
 	if err := remoteRefIter.ForEach(func(reference *plumbing.Reference) error {
-		delete(tags, *reference)
+		for tag := range tags {
+			if tag.Name() == reference.Name() {
+				delete(tags, tag)
+			}
+		}
 		return nil
 	}); err != nil {
 		return err
